@@ -98,11 +98,19 @@ def _invalidate_lattice(cfg, rng):
   mono = [1 if m in (1, "increasing") else 0 for m in cfg["monotonicities"]]
   t = lambda *a: a
   faults = ["size1", "mono_value", "min_gt_max", "interpolation", "trust_direction", "dominance_free_dim", "trust_free_main", "self_trust",
-            "mono_and_unimodal", "unimodal_small_dim", "ju_direction", "dim_out_of_range", "regularizer_name", "ju_duplicate_dims"]
+            "mono_and_unimodal", "unimodal_small_dim", "ju_direction", "dim_out_of_range", "regularizer_name", "ju_duplicate_dims",
+            "equal_bounds", "equal_bounds"]
   f = faults[int(rng.randint(len(faults)))]
   free = [d for d in range(rank) if not mono[d]]
   monos = [d for d in range(rank) if mono[d]]
-  if f == "regularizer_name":
+  if f == "equal_bounds":
+    # not claimed invalid by the reference oracle: rejected or handled finitely, either is fine - but not accepted and then NaN
+    cfg["output_min"] = cfg["output_max"] = float(rng.choice([0.0, 0.5, -1.0]))
+    if not cfg.get("edgeworth_trusts") and not cfg.get("trapezoid_trusts") and rank >= 2 and monos and rng.rand() < .7:
+      # trusts switch the bound handling of finalize_constraints to a rescaling projection: a second path through equal bounds
+      c = [d for d in range(rank) if d != monos[0]][0]
+      cfg[pick(rng, ["edgeworth_trusts", "trapezoid_trusts"])] = [t(monos[0], c, pick(rng, [1, -1]))]
+  elif f == "regularizer_name":
     cfg["kernel_regularizer"] = t("bogus", 0.1, 0.1)          # documented names: 'torsion', 'laplacian'
   elif f == "ju_duplicate_dims" and [d for d in free if sizes[d] >= 3]:
     d0 = [d for d in free if sizes[d] >= 3][0]
@@ -251,11 +259,19 @@ def _project_and_eval(layer, rng, inputs, extra_finalize=True):
   constraint, finalize_constraints(), evaluation."""
   tf = _state["tf"]
   problems = []
-  for v in layer.trainable_variables:
-    v.assign((rng.normal(size=v.shape) * float(rng.choice([0.5, 5.0, 30.0]))).astype(np.float32))
+  # the constraints on the *fresh* weights first (a constant initial kernel sitting exactly on a bound is a corner of its own)
   for v in layer.trainable_variables:
     if v.constraint is not None:
       v.assign(v.constraint(v))
+  for v in layer.variables:
+    if not np.all(np.isfinite(v.numpy())):
+      problems.append("non-finite weights in %s after projecting the initial weights" % v.name)
+  for v in layer.trainable_variables:
+    v.assign((rng.normal(size=v.shape) * float(rng.choice([0.5, 5.0, 30.0]))).astype(v.dtype.as_numpy_dtype))
+  for rep in range(2):        # twice: the second projection starts from weights that already sit on the constraints
+    for v in layer.trainable_variables:
+      if v.constraint is not None:
+        v.assign(v.constraint(v))
   if extra_finalize and hasattr(layer, "finalize_constraints"):
     layer.finalize_constraints()
   for v in layer.variables:
@@ -344,8 +360,16 @@ def _run_pwl(ctx, rng, explicit=None):
              impute_missing=pick(rng, [False, True]), missing_input_value=pick(rng, [None, -1.0]), missing_output_value=pick(rng, [None, None, 0.5]),
              num_projection_iterations=pick(rng, [0, 1, 8]), split_outputs=pick(rng, [False, False, True]),
              input_keypoints_type=pick(rng, ["fixed", "fixed", "learned_interior", "bogus"], 3))
+  if explicit is None and rng.rand() < .25:
+    # a float64 layer; two thirds of these are valid by construction, so that the non-default dtype reaches every projection branch
+    cfg["dtype"] = "float64"
+    if rng.rand() < .67:
+      cfg.update(input_keypoints=pick(rng, [[0.0, 1.0, 2.0], [0.0, 1.0], list(np.linspace(0, 1, 7))]), input_keypoints_type=pick(rng, ["fixed", "fixed", "learned_interior"]),
+                 monotonicity=pick(rng, ["none", "increasing", 1, "decreasing", -1]), is_cyclic=False)
+      b = pick(rng, [(None, None), (0.0, 1.0), (None, 1.0), (0.0, None), (-2.0, 3.0)])
+      cfg.update(output_min=b[0], output_max=b[1])
   cfg = explicit or cfg
-  x = np.concatenate([rng.uniform(-1, 3, size=(5, 1)), np.asarray(list(cfg["input_keypoints"]), dtype=np.float64).reshape(-1, 1)]).astype(np.float32)
+  x = np.concatenate([rng.uniform(-1, 3, size=(5, 1)), np.asarray(list(cfg["input_keypoints"]), dtype=np.float64).reshape(-1, 1)]).astype(np.float32).astype(cfg.get("dtype") or "float32")
 
   def bae(layer, phase):
     inp = tf.constant(x)
